@@ -298,7 +298,7 @@ def run(tier, seed, replay=None):
             if rec and hm.model.transcript is not None and len(hm.model.transcript) < 40:
                 xcheck.append((hm.model.last_request, list(hm.model.transcript), hm.last_raw))
             real = H.canon_items(H.parse_stdout(c.out))
-            if H.canon_items(items) != real or rc != c.rc or tb != H.has_traceback(c):
+            if not H.same_items(items, H.parse_stdout(c.out)) or rc != c.rc or tb != H.has_traceback(c):
                 out.disagreements.append({"correspondence": "Hook.main <-> bin/dippy-hook",
                                           "model": {"items": str(H.canon_items(items)), "exit": rc, "traceback": tb},
                                           "impl": {"items": str(real), "exit": c.rc, "traceback": H.has_traceback(c)},
